@@ -36,7 +36,7 @@ ASSUMPTIONS = [
 	"ties: any maximising (offset, overlap) is accepted; equal strand scores "
 	"may report either strand",
 ]
-REQUIRED = {"many_query_calls": 1, "inplace_list_calls": 3, "corner_calls": 5, "pairs_judged": 200, "pairs_query_longer": 20,
+REQUIRED = {"mixed_dtype_motif_lists": 3, "many_query_calls": 1, "inplace_list_calls": 3, "corner_calls": 5, "pairs_judged": 200, "pairs_query_longer": 20,
 	"pairs_query_shorter": 20, "monotonicity_pairs": 1000,
 	"self_matches": 5, "rc_swaps": 5, "hashing_calls": 3,
 	"hashing_constant_row_calls": 2}
@@ -257,6 +257,14 @@ def run_case(cls, params, rec):
 		Qs[1] = make_pwm(nr, r, r.choice([15, 25]), grid)
 		Ts[1] = make_pwm(nr, r, r.choice([1, 2, 4]), grid)
 	kind = params["kind"]
+	if params["cseed"] % 5 == 0 and kind != "hashing":
+		# motifs of one call need not share a dtype: the first target (and
+		# query) is an integer one-hot consensus, the others float PWMs
+		from .c13 import make_onehot
+		Ts[0] = make_onehot(r, Ts[0].shape[1]).astype(numpy.int64)
+		if params["cseed"] % 10 == 0:
+			Qs[0] = make_onehot(r, Qs[0].shape[1]).astype(numpy.int64)
+		rec.count("mixed_dtype_motif_lists")
 	if kind == "corner":
 		# very short coarse-grid queries: alignment scores of 0, mass in the
 		# lowest score bin, offsets equal to n_score_bins
